@@ -16,7 +16,7 @@ import copy
 from functools import lru_cache
 
 from ..diff_format import MappingDiffBuilder, DiffOp
-from ..utils import defaultdict2
+from ..utils import defaultdict2, strict_equals
 
 from .config import DiffConfig
 from .generic import (
@@ -426,7 +426,7 @@ def add_mime_diff(key, avalue, bvalue, diffbuilder):
         dd = diff(avalue, bvalue)
         if dd:
             diffbuilder.patch(key, dd)
-    elif avalue != bvalue:
+    elif not strict_equals(avalue, bvalue):
         diffbuilder.replace(key, bvalue)
 
 
@@ -520,8 +520,8 @@ def diff_ignore_keys(inner_differ, ignore_keys):
 
 # Sequence diffs should be applied with multilevel
 # algorithm for paths with more than one predicate,
-# and using operator.__eq__ if no match in there.
-notebook_predicates = defaultdict2(lambda: [operator.__eq__], {
+# and using strict_equals if no match in there.
+notebook_predicates = defaultdict2(lambda: [strict_equals], {
     # Predicates to compare cells in order of low-to-high precedence
     "/cells": [
         compare_cell_approximate,
